@@ -191,10 +191,10 @@ CHECKS = {
         "assumptions": ["extension degree D and lane count do not enter the role logic (indices are scaled by D, lanes only reshape rows); runs use D=1, lanes 1..3"],
     },
     "C03": {
-        "lean_modules": ["P3R.Props.C03", "P3R.Props.C03Dedup", "P3R.Props.C03Fusion"],
+        "lean_modules": ["P3R.Props.C03", "P3R.Props.C03Dedup", "P3R.Props.C03Fusion", "P3R.Props.C03Lower", "P3R.Props.C03Chain"],
         "theorems": ["P3R.C03.dedup_key_sound", "P3R.C03.rewrite_holds", "P3R.C03.fusion_sound",
                      "P3R.C03.fusion_complete", "P3R.C03.dedup_sat_back", "P3R.C03.holds_congr_relSlots",
-                     "P3R.C03.fusion_check_sound"],
+                     "P3R.C03.fusion_check_sound", "P3R.C03.node_ok_sound", "P3R.C03.lower_check_sound", "P3R.C03.opWF_sound", "P3R.C03.compile_chain_sound"],
         "run": lambda ctx: compile_run(ctx, "C03"),
         "trusted_base": [],
         "assumptions": [],
